@@ -762,6 +762,14 @@ std::string DecBuf(const std::string& kind, const std::vector<std::uint8_t>& byt
   else if (kind == "ped") { nop::Deserializer<nop::PedanticBufferReader> d{in.p, in.n}; code = Code(d.Read(&h->v)); consumed = d.reader().capacity() - d.reader().remaining(); }
   else if (kind == "bbuf") { nop::BufferReader r{in.p, in.n}; nop::Deserializer<nop::BoundedReader<nop::BufferReader>> d{&r, limit}; code = Code(d.Read(&h->v)); consumed = r.capacity() - r.remaining(); }
   else if (kind == "bped") { nop::PedanticBufferReader r{in.p, in.n}; nop::Deserializer<nop::BoundedReader<nop::PedanticBufferReader>> d{&r, limit}; code = Code(d.Read(&h->v)); consumed = r.capacity() - r.remaining(); }
+  else if (kind == "bufx2" || kind == "pedx2") {
+    // three reads through ONE reader object: after a refused read the reader must still refuse (and stay inside its buffer)
+    auto h2 = std::make_unique<Holder<T>>(); auto h3 = std::make_unique<Holder<T>>();
+    int c2, c3; std::size_t used;
+    if (kind == "bufx2") { nop::Deserializer<nop::BufferReader> d{in.p, in.n}; code = Code(d.Read(&h->v)); c2 = Code(d.Read(&h2->v)); c3 = Code(d.Read(&h3->v)); used = d.reader().capacity() - d.reader().remaining(); }
+    else { nop::Deserializer<nop::PedanticBufferReader> d{in.p, in.n}; code = Code(d.Read(&h->v)); c2 = Code(d.Read(&h2->v)); c3 = Code(d.Read(&h3->v)); used = d.reader().capacity() - d.reader().remaining(); }
+    return "st=" + std::to_string(code) + " st2=" + std::to_string(c2) + " st3=" + std::to_string(c3) + " used=" + std::to_string(used) + " of=" + std::to_string(in.n);
+  }
   else if (kind == "pbuf") { nop::BufferReader r{in.p, in.n}; nop::Deserializer<nop::BufferReader*> d{&r}; code = Code(d.Read(&h->v)); consumed = r.capacity() - r.remaining(); }
   else if (kind == "ubuf") { nop::Deserializer<std::unique_ptr<nop::BufferReader>> d{std::make_unique<nop::BufferReader>(in.p, in.n)}; code = Code(d.Read(&h->v)); consumed = d.reader().capacity() - d.reader().remaining(); }
   else if (kind == "uped") { nop::Deserializer<std::unique_ptr<nop::PedanticBufferReader>> d{std::make_unique<nop::PedanticBufferReader>(in.p, in.n)}; code = Code(d.Read(&h->v)); consumed = d.reader().capacity() - d.reader().remaining(); }
